@@ -5,7 +5,7 @@ import CoreBGP.Lemmas.PeerLocal
 # C12 (L2 half) — the hold-down: both connections dropped, no dial, inbound refused, until the timer fires
 -/
 namespace CoreBGP.Props.C12L2
-open CoreBGP CoreBGP.Model
+open CoreBGP CoreBGP.Model CoreBGP.Lemmas
 open CoreBGP.Lemmas.PeerLocal
 
 /-- an error handed to the manager changes the damping state iff its class is `damp` (a NOTIFICATION
@@ -25,12 +25,22 @@ theorem error_classes (s : PState) (i : Dir) (st dd : St) (k : EK) (h : (s.f i).
 /-- while the peer is held down both FSM slots are empty — in every reachable state -/
 theorem holddown_slots_empty (d p : Bool) (s : PState) (h : PReach d p s) (hh : s.holdDown = true) :
     s.presentO = false ∧ s.presentI = false ∧ s.fo.pc = .absent ∧ s.fi.pc = .absent := by
-  sorry
+  have hi := pinv_reachable h
+  obtain ⟨hpo, hpi, -⟩ := hi.hold hh
+  exact ⟨hpo, hpi, hi.fo_ok.empty hpo, hi.fi_ok.empty hpi⟩
 
 /-- … hence no outbound attempt is made and no session callback runs while it is held down -/
 theorem holddown_no_dial (d p : Bool) (s : PState) (h : PReach d p s) (hh : s.holdDown = true) :
     ∀ l s', (l, s') ∈ next s → l ≠ .dial ∧ (∀ i, l ≠ .onEstablished i) := by
-  sorry
+  have hi := pinv_reachable h
+  obtain ⟨hpo, hpi, -⟩ := hi.hold hh
+  intro l s' hm
+  have := no_fsm_label (hi.fo_ok.empty hpo) (hi.fi_ok.empty hpi) hm
+  refine ⟨?_, ?_⟩
+  · rintro rfl
+    simp [fsmOnly] at this
+  · rintro i rfl
+    simp [fsmOnly] at this
 
 /-- … and an inbound connection is refused (closed without an FSM, no effect on the state) -/
 theorem holddown_refuses_inbound (s : PState) (hh : s.holdDown = true) (a : Bool) (s' : PState)
@@ -44,7 +54,7 @@ theorem holddown_refuses_inbound (s : PState) (hh : s.holdDown = true) (a : Bool
 /-- hold-down flag ⇔ back-off timer armed (until the peer is stopped) -/
 theorem holddown_iff_timer (d p : Bool) (s : PState) (h : PReach d p s) (hnd : s.pdone = false) :
     s.holdDown = s.timerArmed := by
-  sorry
+  exact (pinv_reachable h).timer hnd
 
 /-- when the timer fires the flag is cleared and the outbound FSM is re-created: the peer is retried -/
 theorem timer_ends_holddown (s : PState) (ht : s.timerArmed = true) (hm : s.todo = []) (hnd : s.pdone = false) :
